@@ -95,7 +95,7 @@ FIRST_MISS = {
     ('C12', 'm15'): "no run had a solution pool; 12 % now have sol:stub with two alternative solutions, whose files must echo the objective number the final file echoes",
     ('C14', 'm15'): "the easy consumer's solver object was fresh; in 40 % of its scenarios it has now loaded a bigger model of mixed column classes (a permuted NL order) before the all-continuous model under test",
     ('C04', 'm14'): "fixed variables were removed from the generated models; 15 % now have one original variable fixed by its bounds at a constant that also occurs in an expression of the model",
-    ('C02', 'm14'): "the in-memory path always used NLStringRef(pointer, size); in 30 % of the scenarios it now hands over a std::string, whose size (not its first NUL) ends the input",
+    ('C02', 'm14'): "the in-memory path always used NLStringRef(pointer, size); in 30 % of the scenarios the bytes are also handed over as a std::string (whose size, not its first NUL, ends the input) after the guarded-pointer path has come back, and both must give the same notifications",
     ('C19', 'm15'): "long names were generated for C09 only; 12 % of the C19 scenarios now have distinct names of 40..5000 characters that differ in the last few only",
     ('C20', 'm14'): "no quadratic body lost its quadratic part; the generator now has a function of a quadratic body whose terms cancel once sorted and merged (abs(x*y - y*x + z))",
     ('C03', 'm14'): "NOT CAUGHT (final check exits 0): the change is in the C adapter of the feeder interface (api/c/nl-feeder-c-impl.h); the C03 writer party is a C++ feeder only - a C callback-table feeder party was not built in the time left",
